@@ -263,6 +263,14 @@ class World:
             dump = [(str(self.ref(p)), str(self.build(a))) for p, a in op[1]]
             mgr.load(dump, overwrite=bool(op[2]))
             mgr.run_tasks(mgr.find_tasks())
+        elif kind == "copyfrom":
+            # expressions defined in ANOTHER manager over an equivalent container tree, copied label by label
+            src = World(self.spec, self.xd, self.salt)
+            for p, a in op[1]:
+                src.mgr.register(self.xd.tasks.ExprTask(src.ref(p), src.build(a)))
+            for label, _mode, _ctype, _children in self.spec.roots:
+                mgr.copy_expr_from(src.mgr, label, overwrite=bool(op[2]))
+            mgr.run_tasks(mgr.find_tasks())
         elif kind == "refresh":
             mgr.refresh()
         elif kind == "cleanup":
